@@ -1038,9 +1038,9 @@ func init() {
 		NonTrivial: func(r *simrt.Run) bool {
 			return r.Ops["get:ok"] >= 3 && r.Ops["done:ok"] >= 2 && r.Switches >= 50 && r.FaultsFired() >= 1
 		},
-		Rule:    "2-5 concurrent relay tasks (each request: up to 4 GetSessions batches on one UsedProviders, 1-3 wanted providers, per session exactly one of OnSessionDone / OnSessionDoneIncreaseCUOnly / OnSessionFailure with generic, block-provider, report-and-block or session-out-of-sync errors; completions of one batch sequential or as concurrent tasks) and a pairing task (new epochs with overlapping provider sets and changing max CU, same-epoch updates, virtual-epoch growth) drive the real ConsumerSessionManager inside a synctest bubble; a token-passing scheduler picks the next task from the tape at every lock/atomic/TryLock/channel/sleep/go of the instrumented lavasession code. Few providers (2-5), small max CU and small MaxSessionsAllowedPerProvider make exhaustion, blocking and the blocked-list fallback frequent; long pauses let the second-chance (3 min) and reconnect (30 s) timers fire. Non-trivial = >=3 successful GetSessions, >=2 completed relays, >=50 context switches, >=1 fault; distinct = (op,outcome,fault) sequence x context-switch sequence",
-		Real:    []string{"protocol/lavasession ConsumerSessionManager, ConsumerSessionsWithProvider, SingleConsumerSession, UsedProviders, ReportedProviders incl. reconnect loop (instrumented copies through the build overlay)", "protocol/provideroptimizer ProviderOptimizer (weighted selector seeded from the tape), protocol/qos QoSManager"},
+		Rule:    "2-5 concurrent relay tasks (each request: one UsedProviders, up to 4 GetSessions batches with 1-3 wanted providers, optionally stateful, with a blocked-providers directive or the archive extension; per returned session exactly one of OnSessionDone / OnSessionDoneIncreaseCUOnly / OnSessionFailure with a generic, block-provider, report-and-block or session-out-of-sync (sdk or gRPC status) error; exchanges of a batch sequential or as concurrent tasks, optionally overlapping the next batch) and a pairing task (new epochs with overlapping provider sets, changing max CU, disabled endpoints; same-epoch updates; virtual-epoch growth) drive the real ConsumerSessionManager inside a synctest bubble; a token-passing scheduler picks the next task from the tape at every lock/atomic/TryLock/channel/select/sleep/go of the instrumented lavasession code, map ranges follow a tape-chosen order. Few providers (2-5), small max CU and small MaxSessionsAllowedPerProvider make exhaustion, blocking and the blocked-list fallback frequent; long pauses let the second-chance (3 min) and reconnect (30 s) timers fire. Non-trivial = >=3 successful GetSessions, >=2 completed relays, >=50 context switches, >=1 fault; distinct = (op,outcome,fault) sequence x context-switch sequence",
+		Real:    []string{"protocol/lavasession ConsumerSessionManager, ConsumerSessionsWithProvider, SingleConsumerSession, UsedProviders, ReportedProviders incl. its reconnect loop, probing (instrumented copies through the build overlay)", "protocol/provideroptimizer ProviderOptimizer (weighted selector seeded from the tape; ristretto score stores) and protocol/qos QoSManager; the optimizer and UsedProviders sit behind pass-through wrappers that only observe the selection instants"},
 		Stubbed: []string{"providers: stub pairingtypes.RelayerClient inside pre-populated EndpointConnections (idle grpc.NewClient conn, no socket); Probe answers with the request guid after a tape-chosen latency or fails", "pairing feed / state tracker (epochs, provider sets, max CU, virtual epoch): tape-driven task", "relay exchange and its outcome: tape-driven", "crypto/rand.Reader (source of lava's utils/rand: session ids, GUIDs, probe scatter sleep): deterministic stream seeded from the tape", "metrics manager: nil (NoOp)", "clock: synctest fake time"},
-		Assume:  []string{"code between two instrumented synchronisation points is atomic in the simulation (every simulated schedule is a real schedule, not vice versa)", "a request finishes the exchanges of one GetSessions batch before asking for the next batch on the same UsedProviders", "no backup providers, addons, extensions, stickiness or forced provider selection; endpoints are never dialled (no BlockEndpointError, <100 streams per connection)", "the blocked-provider rule is checked conservatively: an alarm needs an unblocked provider that was valid from the start of the call to the decision instant with no failure report or pairing update overlapping, not used/unwanted by the request, with CU room even if every other relay held a reservation, and with session capacity"},
+		Assume:  []string{"code between two instrumented synchronisation points is atomic in the simulation (every simulated schedule is a real schedule, not vice versa)", "no backup providers, addons, stickiness or forced provider selection; endpoints are never dialled (no BlockEndpointError, <100 streams per connection)", "the blocked-provider rule is checked at the two selection instants the manager exposes: (regular path) the provider chosen from the manager's own candidate list is not on the blocked list while another candidate is unblocked, not ignored and has CU room; (blocked-list path) conservative: an alarm needs an unblocked provider that was valid from the start of the call to the decision instant with no failure report, pairing update or own earlier exchange overlapping, not used/unwanted by the request, supporting the extension, with CU room even if every other relay held a reservation, with session capacity and enabled endpoints; the window between the failed regular selection and the blocked-list selection (manager lock released) is not reported"},
 	})
 }
